@@ -178,3 +178,73 @@ pub fn signatures_of(e: &SignedEntry) -> ([u8; 64], [u8; 64]) {
     let b = postcard::to_stdvec(e).expect("encode");
     (b[..64].try_into().unwrap(), b[64..128].try_into().unwrap())
 }
+
+/// The bytes both signatures cover: namespace ‖ author ‖ key ‖ len (BE) ‖ hash ‖ timestamp (BE).
+pub fn canonical_bytes(namespace: &[u8; 32], author: &[u8; 32], key: &[u8], len: u64, hash: &[u8; 32], ts: u64) -> Vec<u8> {
+    let mut out = Vec::with_capacity(112 + key.len());
+    out.extend_from_slice(namespace);
+    out.extend_from_slice(author);
+    out.extend_from_slice(key);
+    out.extend_from_slice(&len.to_be_bytes());
+    out.extend_from_slice(hash);
+    out.extend_from_slice(&ts.to_be_bytes());
+    out
+}
+
+/// Plain field view of an entry, from which entries with arbitrary tampering can be rebuilt.
+#[derive(Clone, Debug, PartialEq, Eq)]
+pub struct Fields {
+    pub author_sig: [u8; 64],
+    pub namespace_sig: [u8; 64],
+    pub namespace: [u8; 32],
+    pub author: [u8; 32],
+    pub key: Vec<u8>,
+    pub len: u64,
+    pub hash: [u8; 32],
+    pub ts: u64,
+}
+
+impl Fields {
+    pub fn of(e: &SignedEntry) -> Fields {
+        let (a, n) = signatures_of(e);
+        Fields {
+            author_sig: a,
+            namespace_sig: n,
+            namespace: e.namespace().to_bytes(),
+            author: e.author().to_bytes(),
+            key: e.key().to_vec(),
+            len: e.content_len(),
+            hash: *e.content_hash().as_bytes(),
+            ts: e.timestamp(),
+        }
+    }
+    pub fn build(&self) -> Result<SignedEntry, String> {
+        forge_entry(&self.author_sig, &self.namespace_sig, &self.namespace, &self.author, &self.key, self.len, &self.hash, self.ts)
+    }
+    /// Sign the current field values with the given secrets (which need not match the ids).
+    pub fn resign(&mut self, ns: &iroh_docs::NamespaceSecret, author: &iroh_docs::Author) {
+        let msg = canonical_bytes(&self.namespace, &self.author, &self.key, self.len, &self.hash, self.ts);
+        self.namespace_sig = ns.sign(&msg).to_bytes();
+        self.author_sig = author.sign(&msg).to_bytes();
+    }
+    /// The validity predicate of the property, evaluated independently of `SignedEntry::verify`.
+    pub fn valid(&self, expected_ns: &[u8; 32], now: u64) -> bool {
+        if &self.namespace != expected_ns {
+            return false;
+        }
+        let msg = canonical_bytes(&self.namespace, &self.author, &self.key, self.len, &self.hash, self.ts);
+        let Ok(nk) = iroh::PublicKey::from_bytes(&self.namespace) else { return false };
+        let Ok(ak) = iroh::PublicKey::from_bytes(&self.author) else { return false };
+        if nk.verify(&msg, &iroh::Signature::from_bytes(&self.namespace_sig)).is_err() {
+            return false;
+        }
+        if ak.verify(&msg, &iroh::Signature::from_bytes(&self.author_sig)).is_err() {
+            return false;
+        }
+        if self.ts > now.saturating_add(crate::common::FUTURE_SHIFT) {
+            return false;
+        }
+        let empty_hash = &self.hash == iroh_blobs::Hash::EMPTY.as_bytes();
+        empty_hash == (self.len == 0)
+    }
+}
